@@ -20,7 +20,7 @@ FUNCTIONS = ['bfg9000.builtins.compile.object_file/CompileSource/_get_flags/make
              'make_link/ninja_link/compdb_link', 'bfg9000.builtins.command.build_step/BuildStep/'
              'make_command/ninja_command/compdb_command', 'bfg9000.backends.make.writer.flags_vars/'
              'multitarget_rule', 'Makefile.define/_write_variable', 'NinjaFile.rule/build/'
-             '_write_variable', 'bfg9000.backends.compdb.writer.CompDB.append/_stringify',
+             '_write_variable/write', 'bfg9000.backends.ninja.writer.write', 'bfg9000.backends.compdb.writer.CompDB.append/_stringify',
              'bfg9000.tools.cc.compiler.CcCompiler._call/flags', 'tools.cc.linker.CcLinker._call/flags',
              'posix.quote_info', 'safe_str.jbos']
 OUTSIDE = ['symbolic file names', 'more than one symbolic string per edge', 'libraries / packages '
@@ -33,7 +33,7 @@ def bounds(tier):
     q = tier == 'quick'
     return {'string_length': '0..%d' % (1 if q else 2), 'alphabet': 'all Unicode except NUL, CR, LF',
             'edges': ['compile (object_file with per-target and global options)',
-                      'link (executable with link option)', 'build_step (list-form command)', 'link with a project static library and a global link option']}
+                      'link (executable with link option)', 'build_step (list-form command)', 'link with a project static library and a global link option', 'whole build.ninja (file-scope variable order) for a compile edge with global include dir/option']}
 
 
 def obligations(tier, kf):
@@ -43,6 +43,8 @@ def obligations(tier, kf):
         for n in range(0, (1 if q else 2) + 1):
             obs.append(Ob(fn, {'N': n}, 600 if n < 2 else 3000, desc='%s |s|==%d' % (fn, n)))
         obs.append(Ob(fn, {'N': 1}, 200).twin())
+    w = Ob('w_whole_file', {}, 900, desc='complete build.ninja from the real writer, file-scope evaluation order')
+    obs += [w, w.twin(), w.mutant('ninja_srcdir_after_flags')]
     obs.append(Ob('c_compile', {'N': 1}, 600).mutant('compdb_drops_target_options'))
     obs.append(Ob('c_compile', {'N': 1}, 600).mutant('ninja_no_dollar'))
     obs.append(Ob('l_link', {'N': 1}, 600).mutant('make_no_dollar'))
